@@ -480,6 +480,11 @@ class Kernel(object):
                     if pth == f['dir'] or pth.startswith(f['dir'] + '/'):
                         return E.EIO
             return None
+        if what == 'dir_not_searchable':   # D lost its search (x) bit: every lookup THROUGH D fails, D itself can be stat'ed
+            for pth in (ev[3], ev[4]):
+                if isinstance(pth, str) and pth.startswith(f['dir'] + '/'):
+                    return E.EACCES
+            return None
         if what == 'op_errno':      # every op named N on a path under D fails
             if name != f['op']:
                 return None
